@@ -155,6 +155,18 @@ PROPS["C15"] = {
     "assumptions": ["EX/EXAT are carried as decimal float seconds: only float-exact values are compared (A-float)", "a zero duration option (PX 0) is indistinguishable from an absent one on the wire (known limitation of the wire format, not exercised)"],
 }
 
+PROPS["C10"] = {
+    "lean": ["OlricModel.Props.C10"],
+    "streams": [("evict", (16, 40), (200, 120))],
+    "model": True,
+    "level_text": "Theorems with the code's random choices (which entries the LRU sampling picks, which entries a background scan visits) as universally quantified inputs: after ANY sequence of Puts on the keys of a partition a primary fragment holds at most max(1, MaxKeys div owned) keys (C10_maxkeys_step, C10_maxkeys), fragment lengths add up to at most owned x share <= MaxKeys (C10_member_bound); with entries of one size the bytes in use stay within MaxInuse div owned plus one entry, with both limits active at once (C10_maxinuse_step); a Put under the policy has no failing outcome and a victim can always be found (C10_put_ok, evictOne_possible); the key just written reads back (C10_just_written); an entry is idle exactly from floor((lastAccess+MaxIdleDuration)/1ms) on (C10_idle_window), a scan never removes an entry that is neither expired nor idle (C10_idle_safe) and removes a visited idle or expired entry from the owner and every backup (C10_scan_evicts). The code shapes the model follows are extracted on every run (facts_tie). Tied to the code by the evict stream: LRU with MaxKeys / MaxInuse / both, LRUSamples 1..5, MaxKeys below the partition count, white-box statistics after every Put; idle windows (DMap-wide and per-DMap configuration) with a virtual clock moved onto the deadlines and explicit background scans.",
+    "design_ref": "DESIGN.md §6 C10",
+    "modelled": DMAP_MODELLED + "; dmap.setLRUEvictionStats / evictKeyWithLRU / isKeyIdleOnFragment / scanFragmentForEviction (DMap/Evict.lean)",
+    "assumptions": ["'eventually disappears' is liveness under fairness of the evictor's random partition choice and of Go's map iteration order: proved is what one scan does to the entries it visits",
+                    "which member owns how many partitions, and which keys hash to a partition, are inputs read from the running cluster",
+                    "stable membership; LRU exactness (that the victim is the least recently used of the sample) is not part of the property and not claimed"],
+}
+
 PROPS["C14"] = {
     "lean": ["OlricModel.Props.C14"],
     "streams": [("pubsub", (8, 120), (120, 400))],
